@@ -336,7 +336,7 @@ def _strategy():
     dts = st.sampled_from(DTS + [0.0, 0.5, 0.3, None, True, False, 1.7, -0.5, 0.7])
 
     def table(arb):
-        imp = st.sampled_from(IMPS_W + [0.75, 1] if arb == "weighted" else IMPS + [0.75, 1])
+        imp = st.sampled_from(IMPS_W + [0.75, 1, 2.0, 5] if arb == "weighted" else IMPS + [0.75, 1, 2.0, 5])   # any non negative number
         val = st.sampled_from([0, 1.5, -2, 4, 0.5, 7, "a", None]) if arb == "weighted" else None
         n = st.integers(3, 4)
 
